@@ -174,6 +174,42 @@ m("c16_split_skips_empty", "C16", r"C16\.ORDUSE:split:std-split-with-pat", "spli
         .map(Into::into)""", """        .split(pat)
         .filter(|p| !p.is_empty())
         .map(Into::into)""")
+# ---------------------------------------------------------------- C04
+m("c04_order_no_reverse", "C04", r"C04\.ORDER:(render_to:root-end-of-chain|finalize:ancestors-nearest-first)", "find_parents returns the chain nearest-first",
+  "tera/src/template.rs", "            parents.reverse();\n            Ok(parents)", "            Ok(parents)")
+m("c04_order_root_last", "C04", r"C04\.ORDER:render_to:root-end-of-chain", "rendering starts from the nearest parent",
+  "tera/src/vm/interpreter.rs", "let chunk = if let Some(base_tpl_name) = self.template.parents.first() {", "let chunk = if let Some(base_tpl_name) = self.template.parents.last() {")
+m("c04_order_lineage_forward", "C04", r"C04\.ORDER:finalize:ancestors-nearest-first", "the super() chain walks the ancestors root-first",
+  "tera/src/tera.rs", "                    for parent_tpl_name in tpl_parents[name].iter().rev() {", "                    for parent_tpl_name in tpl_parents[name].iter() {")
+m("c04_lineage_always_walk", "C04", r"C04\.LINEAGE:finalize:ancestors-only-if-own-calls-super", "ancestors are appended even when the own definition does not call super()",
+  "tera/src/tera.rs", "                if chunk.is_calling_function(\"super\") {\n                    for parent_tpl_name", "                if chunk.is_calling_function(\"super\") || !tpl_parents[name].is_empty() {\n                    for parent_tpl_name")
+m("c04_lineage_no_stop", "C04", r"C04\.LINEAGE:finalize:stop-at-first-non-super", "the walk does not stop at an ancestor definition without super()",
+  "tera/src/tera.rs", """                            if !parent_chunk.is_calling_function("super") {
+                                break;
+                            }""", """                            if !parent_chunk.is_calling_function("super") && all_blocks.len() > 8 {
+                                break;
+                            }""")
+m("c04_lineage_overwrite", "C04", r"C04\.LINEAGE:finalize:inherit-without-overwrite", "inherited blocks overwrite the child's own definition",
+  "tera/src/tera.rs", "                        child_blocks.entry(block_name).or_insert(lineage);", "                        child_blocks.insert(block_name, lineage);")
+m("c04_vm_last_level", "C04", r"C04\.VM:RenderBlock:most-derived-definition", "RenderBlock starts at the last lineage element",
+  "tera/src/vm/interpreter.rs", "                    let block_chunk = &block_lineage[0];", "                    let block_chunk = &block_lineage[block_lineage.len() - 1];")
+m("c04_vm_lineage_of_root", "C04", r"C04\.VM:RenderBlock:lineage-of-most-derived", "RenderBlock looks the lineage up in the root template",
+  "tera/src/vm/interpreter.rs", """                    let Some(block_lineage) = self
+                        .template
+                        .block_lineage
+                        .get(block_name)""", """                    let Some(block_lineage) = self
+                        .tera
+                        .templates[self.template.parents.first().unwrap_or(&self.template.name)]
+                        .block_lineage
+                        .get(block_name)""")
+m("c04_vm_super_no_restore", "C04", r"C04\.VM:super:level-set-and-restored", "super() restores the level only after the error check",
+  "tera/src/vm/interpreter.rs", """                        state.blocks[pos].2 = level;
+                        res?;""", """                        res?;
+                        state.blocks[pos].2 = level;""")
+m("c04_vm_super_position", "C04", r"C04\.VM:super:topmost-matching-block", "super() uses the bottom-most matching active block",
+  "tera/src/vm/interpreter.rs", "                            .rposition(|entry| entry.0 == current_block_name)", "                            .position(|entry| entry.0 == current_block_name)")
+m("c04_block_capture_any", "C04", r"C04\.BLOCK:vm:capture-the-named-block", "every block rendered while capture_block is set overwrites the block buffer",
+  "tera/src/vm/interpreter.rs", "                    let res = if state.capture_block == Some(block_name.as_str()) {", "                    let res = if state.capture_block.is_some() {")
 # ---------------------------------------------------------------- C05
 m("c05_iso_global", "C05", r"C05\.ISO:writer:global_context", "render_component gives the component the global context",
   "tera/src/vm/interpreter.rs", """        let mut state = State::new_with_chunk(&context, chunk);
